@@ -63,7 +63,7 @@ class TaskState:
                 continue
             self.processed_task_ids.add(id(task))
 
-            dependency_tasks: OrderedSet[Task] = OrderedSet()
+            dependency_tasks: Sequence[Task] = []
             if not self.coordinator.use_cache(task):
                 dependency_tasks = get_direct_dependencies(task)
 
